@@ -464,6 +464,12 @@ def render_fn(s, loc, contract, opts, item, indent=""):
         body = splice_loops(s, loc["body_open"], loc["body_close"], opts.get("loops"), item, opts.get("places"))
         body = apply_replacements(body, opts.get("repls", []), item)
         body = apply_befores(body, opts.get("befores", []), item)
+        for bind, ty in opts.get("annotates", []):
+            pat = re.compile(re.escape(bind) + r"\s*=")
+            ms = list(pat.finditer(body))
+            if len(ms) != 1:
+                raise AnchorLost("%s: binding %r found %d times" % (item.ident, bind, len(ms)))
+            body = body[:ms[0].start()] + bind + ": " + ty + " =" + body[ms[0].end():]
         pre = ""
     parts = [pre + sig]
     if contract.strip():
@@ -632,6 +638,7 @@ class Gen:
         self.items = []
         self.props_default = []
         self.force_trusted = False
+        self.rlimit = None
         self.substs = []
         self.dropped = []
         self.notes = []
@@ -670,6 +677,9 @@ class Gen:
                 i += 1
             elif d == "property":
                 self.props_default = toks[1:]
+                i += 1
+            elif d == "rlimit":
+                self.rlimit = float(toks[1])
                 i += 1
             elif d == "subst":
                 self.substs.append((toks[1], toks[2]))
@@ -720,6 +730,7 @@ class Gen:
         repls = []
         sigsub = []
         befores = []
+        annotates = []
         places = {}
         anchor = None
         cur = contract
@@ -785,6 +796,11 @@ class Gen:
                     note = " ".join(toks[1:])
                     i += 1
                     continue
+                if d == "annotate":
+                    # //@annotate <binding text> <Type>: adds `: Type` to a `let` binding (no executable token changes)
+                    annotates.append((toks[1], toks[2]))
+                    i += 1
+                    continue
                 if d == "sigsub":
                     sigsub.append((toks[1], toks[2]))
                     i += 1
@@ -802,7 +818,7 @@ class Gen:
             i += 1
         for k in loops:
             loops[k]["text"] = "\n".join(loops[k].pop("_buf"))
-        return "\n".join(contract), {"loops": loops, "repls": repls, "sigsub": sigsub, "befores": befores,
+        return "\n".join(contract), {"loops": loops, "repls": repls, "sigsub": sigsub, "befores": befores, "annotates": annotates,
                                     "places": {k: "\n".join(v) for k, v in places.items()}}, i, term
 
     def vac(self, contract, ident=None):
@@ -1011,6 +1027,7 @@ def _do_problems(self):
     self.emit("#[derive(PartialEq, Eq, Structural)]\npub enum Problem {\n" + "".join("    %s,\n" % r[1] for r in rows) + "}")
     self.emit("impl Problem {\n    pub open spec fn code_spec(&self) -> Seq<char> {\n        match self {\n" +
               "".join("            Problem::%s => \"%s\"@,\n" % (r[1], r[0]) for r in rows) + "        }\n    }\n}")
+    self.emit("pub mod ironplc_problems { pub use super::Problem; }")
     self.notes.append("enum Problem and its code table regenerated from problem-codes.csv")
 
 
@@ -1024,7 +1041,7 @@ def generate(unit_path, out_path, vacuity=False):
     with open(out_path, "w", encoding="utf-8") as f:
         f.write(text)
     meta = {
-        "unit": g.unit, "vacuity": sorted(vacuity) if isinstance(vacuity, (set, list)) else bool(vacuity), "items": [it.to_json() for it in g.items],
+        "unit": g.unit, "rlimit": g.rlimit, "vacuity": sorted(vacuity) if isinstance(vacuity, (set, list)) else bool(vacuity), "items": [it.to_json() for it in g.items],
         "dropped": sorted(set(g.dropped)), "notes": sorted(set(g.notes)),
     }
     with open(out_path + ".meta.json", "w") as f:
